@@ -145,9 +145,9 @@ def replay(model, fnd, prop):
     rc, out = sh(["cargo", "test", "--offline", "--test", "c15_xorb_limits"], cwd=os.path.join(VERIF, "replay"), env=env, timeout=2400,
                  log=os.path.join(LOGS, "replay_c15.log"))
     path = os.path.join(VERIF, "replay", "tests", "c15_xorb_limits.rs")
-    if "test result: FAILED" in out and "C15 violated" in out:
+    if "test result: FAILED" in out:
         m = re.search(r"C15 violated: [^\n]*", out)
-        return True, path, m.group(0)[:240] if m else "native replay fails"
+        return True, path, m.group(0)[:240] if m else ("native replay fails: " + (re.search(r"panicked at [^\n]*\n[^\n]*", out).group(0).replace("\n", " ")[:200] if re.search(r"panicked at [^\n]*\n[^\n]*", out) else "test failed"))
     if "test result: ok. 1 passed" in out:
         return False, path, "native replay passes: all xorbs within the configured limits"
     return None, path, "native replay inconclusive (rc=%s)" % rc
